@@ -21,6 +21,9 @@ TRIPLE = 'x86_64-unknown-linux-gnu'
 def env():
     e = dict(os.environ, CARGO_NET_OFFLINE='true')
     e['RUSTFLAGS'] = '--cfg brood_verif -Awarnings'
+    # leaks are decided by the tracking allocator inside the oracles; the harness itself forgets worlds of
+    # failed base histories on purpose, so LeakSanitizer's exit-time report is switched off
+    e['ASAN_OPTIONS'] = 'detect_leaks=0'
     return e
 
 
